@@ -87,7 +87,7 @@ TJA ==
   /\ Is("JA")
   /\ IF s.wild THEN s' = [s EXCEPT !.failed = TRUE, !.nerr = s.nerr + 1]
      ELSE LET j == JALoop(s, << >>, << >>, << >>, 0, Ev.tl) IN
-          /\ JAAllowed(j, Ev.n, Ev.err, Ev.obs, Ev.segs, Ev.rest, Ev.restOK)
+          /\ JAAllowed(j, Ev.tl, Ev.n, Ev.err, Ev.obs, Ev.segs, Ev.rest, Ev.restOK)
           /\ s' = IF j.w.res = "wild" THEN [j.s EXCEPT !.wild = TRUE, !.failed = TRUE, !.nerr = 1] ELSE JANext(j, Ev.err)
   /\ UNCHANGED << cfg, fr >> /\ Adv
 
